@@ -474,15 +474,26 @@ def run_race_shard(shard):
         NL = info['decisions']
         specs = [{'preempt': []}] + [{'preempt': [[i, 0]]} for i in range(1, N + 2)]
         specs += [{'preempt': [[i, 0]], 'lines': True} for i in range(1, NL + 2)]
-        pairs = [(i, j) for i in range(1, min(NL, 40) + 1) for j in range(i + 1, NL + 2)]
-        budget = 250 if shard['tier'] == 'quick' else 4000
-        if len(pairs) > budget:
-            pairs = rng.sample(pairs, budget)
-        else:
-            counters['race_pairs_exhaustive'] += 1
-        specs += [{'preempt': [[i, 0], [j, 0]], 'lines': True} for i, j in pairs]
-        for spec in specs:
+        specs.append(None)
+        D = {}
+        k = 0
+        while k < len(specs):
+            spec = specs[k]
+            k += 1
+            if spec is None:
+                # second preemption anywhere in the run as it is *after* the first one (a preempted run is longer than
+                # the undisturbed one: the straggler starts earlier and both threads meet at more points)
+                pairs = [(i, j) for i in sorted(D) for j in range(i + 1, D[i] + 2)]
+                budget = 250 if shard['tier'] == 'quick' else 6000
+                if len(pairs) > budget:
+                    pairs = rng.sample(pairs, budget)
+                else:
+                    counters['race_pairs_exhaustive'] += 1
+                specs += [{'preempt': [[i, 0], [j, 0]], 'lines': True} for i, j in pairs]
+                continue
             fs, info = check_race(m, o, spec)
+            if spec.get('lines') and len(spec['preempt']) == 1:
+                D[spec['preempt'][0][0]] = info['decisions']
             n += 1
             fails.extend(fs[:1])
             counters['race_runs'] += 1
